@@ -290,6 +290,13 @@ func c02Native(c *Check, words func(string) ([]string, bool)) {
 		case *ssa.Lookup:
 			if g, ok := loadsGlobal(x.X); ok && g.Name() == "Type_Primitive_value" {
 				usesTable = true
+			} else if ok && g.Pkg != nil && isRepoPkg(g.Pkg.Pkg) {
+				// a table of the package keyed by the type word (the sized natives)
+				if keys, found := mapLiteralKeysOfGlobal(p, g.Pkg.Pkg.Path(), g.Name()); found {
+					for k := range keys {
+						cases[k] = true
+					}
+				}
 			}
 		case *ssa.Call:
 			if callIs(x, "strings", "ToUpper") {
@@ -326,35 +333,62 @@ func c02Native(c *Check, words func(string) ([]string, bool)) {
 
 func c02Ops(c *Check, words func(string) ([]string, bool)) {
 	p := c.P
-	// operator table: map literal with string keys stored in field opmap of the listener
+	// operator table, found by role: a map literal from string to the model's
+	// binary-operator enum, or a function from a string to that enum that compares
+	// its argument with string constants; the one that knows "==" is the table of
+	// the comparison operators
+	isOpEnum := func(t types.Type) bool {
+		n := namedOf(t)
+		return n != nil && n.Obj().Name() == "Expr_BinExpr_Op"
+	}
 	keys := map[string]bool{}
 	var at token.Pos
 	for _, f := range p.RepoFuncs() {
 		if fnPkgPath(f) != repoMod+"/pkg/parse" {
 			continue
 		}
+		local := map[string]bool{}
+		var localAt token.Pos
 		eachInstr(f, func(_ *ssa.BasicBlock, i ssa.Instruction) {
-			st, ok := i.(*ssa.Store)
-			if !ok {
-				return
-			}
-			if _, fld, _, ok := fieldOfAddr(st.Addr); !ok || fld != "opmap" {
-				return
-			}
-			if mm, ok := st.Val.(*ssa.MakeMap); ok {
-				at = mm.Pos()
-				for _, r := range *mm.Referrers() {
+			switch x := i.(type) {
+			case *ssa.MakeMap:
+				m, ok := x.Type().Underlying().(*types.Map)
+				if !ok || !isStringType(m.Key()) || !isOpEnum(m.Elem()) || x.Referrers() == nil {
+					return
+				}
+				cand := map[string]bool{}
+				for _, r := range *x.Referrers() {
 					if mu, ok := r.(*ssa.MapUpdate); ok {
 						if k, ok := constString(mu.Key); ok {
-							keys[k] = true
+							cand[k] = true
+						}
+					}
+				}
+				if cand["=="] {
+					keys, at = cand, x.Pos()
+				}
+			case *ssa.BinOp:
+				if x.Op != token.EQL || f.Signature.Results().Len() != 1 || !isOpEnum(f.Signature.Results().At(0).Type()) {
+					return
+				}
+				for _, pair := range [][2]ssa.Value{{x.X, x.Y}, {x.Y, x.X}} {
+					if k, ok := constString(pair[1]); ok {
+						if _, isParam := pair[0].(*ssa.Parameter); isParam {
+							local[k] = true
+							if localAt == token.NoPos {
+								localAt = x.Pos()
+							}
 						}
 					}
 				}
 			}
 		})
+		if local["=="] && len(keys) == 0 {
+			keys, at = local, localAt
+		}
 	}
 	if len(keys) == 0 {
-		c.Undecidedf("COMPARE-OPS", "operator table", "-", "the listener's operator table (field opmap) could not be folded")
+		c.Undecidedf("COMPARE-OPS", "operator table", "-", "the listener's table of comparison operators (string → Expr_BinExpr_Op) could not be found or folded")
 		return
 	}
 	for _, rule := range []string{"E_REL", "E_ANGLE_OPEN", "E_ANGLE_CLOSE", "E_DOUBLE_EQ"} {
@@ -396,11 +430,46 @@ func c02Verbs(c *Check, words func(string) ([]string, bool)) {
 func c02Scopes(c *Check) {
 	p := c.P
 	pushed := map[string]string{}
+	// the scope stack and its push function, by role: a function of pkg/parse that
+	// appends its interface-typed parameter to a slice-of-interface field of the listener
 	var push *ssa.Function
+	scopeFld := ""
 	for _, f := range p.RepoFuncs() {
-		if fnPkgPath(f) == repoMod+"/pkg/parse" && f.Name() == "pushScope" {
-			push = f
+		if fnPkgPath(f) != repoMod+"/pkg/parse" || f.Parent() != nil || strings.HasSuffix(p.fnFile(f), "_test.go") {
+			continue
 		}
+		eachInstr(f, func(_ *ssa.BasicBlock, i ssa.Instruction) {
+			st, ok := i.(*ssa.Store)
+			if !ok || push != nil {
+				return
+			}
+			own, fld, _, ok := fieldOfAddr(st.Addr)
+			if !ok || own == nil || own.Obj().Name() != "TreeShapeListener" {
+				return
+			}
+			sl, ok := st.Addr.Type().Underlying().(*types.Pointer).Elem().Underlying().(*types.Slice)
+			if !ok {
+				return
+			}
+			if _, isIface := sl.Elem().Underlying().(*types.Interface); !isIface {
+				return
+			}
+			ap := appendCall(st.Val)
+			if ap == nil {
+				return
+			}
+			// the appended element is a parameter of f
+			if derives(ap.Common().Args[1], func(v ssa.Value) bool {
+				prm, ok := v.(*ssa.Parameter)
+				if !ok {
+					return false
+				}
+				_, isIface := prm.Type().Underlying().(*types.Interface)
+				return isIface
+			}, nil) {
+				push, scopeFld = f, fld
+			}
+		})
 	}
 	if push == nil {
 		c.Undecidedf("SCOPE-KINDS", "pushScope", "-", "scope push function not found")
@@ -456,7 +525,7 @@ func c02Scopes(c *Check) {
 			}
 			if derives(ta.X, func(v ssa.Value) bool {
 				_, fld, _, ok := loadedField(v)
-				if ok && fld == "stmt_scope" {
+				if ok && fld == scopeFld {
 					return true
 				}
 				// through an accessor of the stack (peekScope)
@@ -465,7 +534,7 @@ func c02Scopes(c *Check) {
 						hit := false
 						eachInstr(sc, func(_ *ssa.BasicBlock, j ssa.Instruction) {
 							if fa, ok := j.(*ssa.FieldAddr); ok {
-								if _, f2, _, ok := fieldOfAddr(fa); ok && f2 == "stmt_scope" {
+								if _, f2, _, ok := fieldOfAddr(fa); ok && f2 == scopeFld {
 									hit = true
 								}
 							}
@@ -518,7 +587,7 @@ func c02Widths(c *Check) {
 	p := c.P
 	n := 0
 	for _, f := range p.RepoFuncs() {
-		if fnPkgPath(f) != repoMod+"/pkg/parse" || !strings.HasSuffix(p.fnFile(f), "/listener_impl.go") {
+		if !isListenerCode(p, f) {
 			continue
 		}
 		eachInstr(f, func(_ *ssa.BasicBlock, i ssa.Instruction) {
@@ -592,7 +661,7 @@ func c02OptionalMarker(c *Check) {
 	p := c.P
 	n := 0
 	for _, f := range p.RepoFuncs() {
-		if fnPkgPath(f) != repoMod+"/"+parsePkg || f.Parent() != nil || !strings.HasSuffix(p.fnFile(f), "/listener_impl.go") {
+		if f.Parent() != nil || !isListenerCode(p, f) {
 			continue
 		}
 		var tests []ssa.Instruction
